@@ -64,9 +64,10 @@ def fault_configs(tier):
 # ------------------------------------------------------------------------------------------------
 
 class Ctx:
-    def __init__(self, dep, cfg, rng, tcpfwd=None, udpfwd=None):
+    def __init__(self, dep, cfg, rng, tcpfwd=None, udpfwd=None, closers=None):
         self.dep, self.cfg, self.rng, self.tcpfwd, self.udpfwd = dep, cfg, rng, tcpfwd, udpfwd
         self.deadline = 3.0
+        self.closers = closers if closers is not None else []
 
     def server_addr(self):
         return (T.LOOPBACK, self.dep.server_port)
@@ -352,6 +353,40 @@ def f_cli_udp_unresolvable(ctx):
     return {"did": "a well-formed SOCKS5-UDP datagram for nonexistent.invalid:53"}
 
 
+def f_cli_udp_server_down(ctx):
+    """stream-carried UDP (vmess / trojan): the client reaches the server through a forwarder; while nothing listens on
+    that port (connection refused) an application sends a datagram - setting up its outbound fails; then the server
+    is reachable again.  The UDP service of the client must survive (checked by the UDP canary afterwards)."""
+    port = ctx.tcpfwd.port
+    ctx.tcpfwd.close()
+    time.sleep(0.4)
+    refused = False
+    try:
+        _tcp((T.LOOPBACK, port), 0.5).close()
+    except OSError:
+        refused = True
+    with T.UdpTarget() as tgt:
+        u = socket.socket(socket.AF_INET, socket.SOCK_DGRAM)
+        for _ in range(2):
+            u.sendto(T.socks5_udp_datagram(tgt.addr, b"sent while the server is away"), ctx.client_addr())
+            time.sleep(0.2)
+        u.close()
+        got = tgt.count()
+    fwd = None
+    for _ in range(20):
+        try:
+            fwd = T.TcpForwarder(upstream=(T.LOOPBACK, ctx.dep.server_port), port=port)
+            break
+        except OSError:
+            time.sleep(0.1)
+    if fwd is None:
+        raise T.InfraError("could not listen again on the forwarder port %d" % port)
+    ctx.closers.append(fwd)
+    ctx.tcpfwd = fwd
+    return {"did": "server port unreachable (connection refused: %s) while an application sent 2 datagrams; then reachable again" % refused,
+            "target_received_meanwhile": got}
+
+
 def f_srv_fd_exhaustion(ctx):
     """server started with RLIMIT_NOFILE=40"""
     socks, errs = [], 0
@@ -370,6 +405,26 @@ def f_srv_fd_exhaustion(ctx):
     time.sleep(1.0)
     return {"did": "server runs with RLIMIT_NOFILE=40; %d connections opened (accepts must fail), held 1 s, closed, 1 s pause" % len(socks),
             "connect_errors": errs, "server_fd_count_at_peak": fds_at_peak, "server_fd_count_after": ctx.dep.fd_count("server")}
+
+
+def f_cli_fd_exhaustion(ctx):
+    """client started with RLIMIT_NOFILE=40"""
+    socks, errs = [], 0
+    for _ in range(120):
+        try:
+            s = _tcp(ctx.client_addr(), 1.0)
+            socks.append(s)
+        except OSError:
+            errs += 1
+            if errs > 5:
+                break
+    time.sleep(1.0)
+    fds_at_peak = ctx.dep.fd_count("client")
+    for s in socks:
+        s.close()
+    time.sleep(1.0)
+    return {"did": "client runs with RLIMIT_NOFILE=40; %d local connections opened (accepts must fail), held 1 s, closed, 1 s pause" % len(socks),
+            "connect_errors": errs, "client_fd_count_at_peak": fds_at_peak, "client_fd_count_after": ctx.dep.fd_count("client")}
 
 
 # name -> (function, applies(cfg), needs)   needs: None | "tcpfwd" | "dualfwd"
@@ -400,6 +455,8 @@ def catalogue():
         c["cli_udp_len_%d" % n] = (mk_cli_udp_len(n), cu, None)
     c["cli_udp_frag"] = (f_cli_udp_frag, cu, None)
     c["cli_udp_unresolvable"] = (f_cli_udp_unresolvable, cu, None)
+    # outbound set-up failure: only where the datagrams travel in a TCP-based tunnel
+    c["cli_udp_server_down"] = (f_cli_udp_server_down, lambda cfg: cfg["udp"] and not cfg["native_udp"] and cfg["transport"] != "quic", "tcpfwd")
     return c
 
 
@@ -434,6 +491,7 @@ def run_scenario(name, cfg, fault_names, seed, extra_spec=None):
     rng = random.Random("%s/%s" % (seed, name))
     needs = {_needs(cat[f], cfg) for f in fault_names if f in cat} - {None}
     tcpfwd = udpfwd = None
+    closers = []
     spec = dict(cfg["spec"], seed=seed)
     if extra_spec:
         spec.update(extra_spec)
@@ -459,11 +517,11 @@ def run_scenario(name, cfg, fault_names, seed, extra_spec=None):
             if not ok0:
                 observed.update(T.tails(dep))
                 return [T.result(name, spec, EXPECT, observed, False, "canary does not work BEFORE the fault: " + "; ".join(prob0))]
-            ctx = Ctx(dep, cfg, rng, tcpfwd, udpfwd)
+            ctx = Ctx(dep, cfg, rng, tcpfwd, udpfwd, closers)
             problems = []
             for fname in fault_names:
                 try:
-                    o = cat[fname][0](ctx) if fname != "srv_fd_exhaustion" else f_srv_fd_exhaustion(ctx)
+                    o = {"srv_fd_exhaustion": f_srv_fd_exhaustion, "cli_fd_exhaustion": f_cli_fd_exhaustion}[fname](ctx) if fname.endswith("_fd_exhaustion") else cat[fname][0](ctx)
                 except OSError as e:
                     o = {"did": "fault injection hit a socket error", "socket_error": repr(e)}
                 problems.extend(o.pop("problems", []) or [])
@@ -477,7 +535,7 @@ def run_scenario(name, cfg, fault_names, seed, extra_spec=None):
                 observed.update(T.tails(dep, 900))
             return [T.result(name, dict(spec, faults=list(fault_names)), EXPECT, observed, not problems, "; ".join(problems)[:1500])]
     finally:
-        for f in (tcpfwd, udpfwd):
+        for f in [tcpfwd, udpfwd] + closers:
             if f is not None:
                 f.close()
 
@@ -499,9 +557,14 @@ def suite_faults(tier, seed, only):
                 name = "faults/%s/sequence-%d" % (cfg["name"], i)
                 if T.wanted(name, only):
                     jobs.append(lambda name=name, cfg=cfg, seq=seq: run_scenario(name, cfg, seq, seed))
+        # descriptor exhaustion: every configuration in the thorough tier, one plain and one TLS configuration in the quick tier
+        if tier == "thorough" or cfg["name"] in ("vmess.aes-128-gcm.tcp+udp", "trojan.-.tls+udp"):
             if cfg["server_tcp"]:
                 name = "faults/%s/srv_fd_exhaustion" % cfg["name"]
                 if T.wanted(name, only):
                     jobs.append(lambda name=name, cfg=cfg: run_scenario(name, cfg, ["srv_fd_exhaustion"], seed, {"server_nofile": 40}))
+            name = "faults/%s/cli_fd_exhaustion" % cfg["name"]
+            if T.wanted(name, only):
+                jobs.append(lambda name=name, cfg=cfg: run_scenario(name, cfg, ["cli_fd_exhaustion"], seed, {"client_nofile": 40}))
     rng.shuffle(jobs)
     return T.run_parallel(jobs, T.SETTINGS["workers"], on_done=T.report_line)
